@@ -13,7 +13,9 @@ RULE = ('histories of 1-3 operations (Stream.mix_from with 0-5 inlets, split_to,
         'phases from s l g S L, the receiver among the inlets 0/1/2 times, dyadic flows including all-zero streams, '
         'energy_balance on and off, the temperature solver made to fail 0-3 times (fallback to multi-phase); families of histories '
         'for cache-order effects, MultiStream.copy_flow and aliases (flow_proxy objects with their own phase, sub-streams ms[p] handed '
-        'out before the history and also used as RECEIVERS of separate_out / copy_flow / scale; what EVERY stream object shows is compared); executed on '
+        'out before the history and also used as RECEIVERS of separate_out / copy_flow / scale; a family of its own separates a MultiStream and its OWN '
+        'sub-streams out of each other (partial sharing of flow data; the MultiStream also assembled by MultiStream.from_streams), other phases non-empty; '
+        'what EVERY stream object shows is compared); executed on '
         'the real classes and on the Coq model; the whole store (class, package, phases, every phase x chemical flow) or '
         'the exception class and the store before the raising call are compared.  non-trivial = an operation succeeded '
         'and changed the store, or raised; distinct = distinct case hash')
@@ -467,6 +469,50 @@ def gen_view_recv_case(rng):
             ops.append(['mix', cell[v], [rng.randrange(nh) for _ in range(rng.choice([1, 2]))], False, 0])
     return {'streams': streams, 'handles': handles, 'ops': ops}
 
+def gen_sep_own_case(rng):
+    """separate_out between a MultiStream and stream objects that share only PART of its flow data: its own per-phase
+    sub-streams multistream[p] (also a MultiStream assembled by MultiStream.from_streams from single-phase streams, whose
+    rows ARE those streams' data), in both directions, with at least one other phase holding material; mixed with
+    separations of independent streams, a stream out of itself, scaling and a preceding mix"""
+    k = rng.choice([0, 0, 1, 2, 4])
+    ph = sorted(rng.sample(PHASES, rng.choice([2, 2, 3, 3])))
+    def row(pk, dense=0.75): return [float(rng.choice(VALS[1:])) if rng.random() < dense else 0. for _ in PKGS[pk]]
+    owner = {'pkg': k, 'multi': True, 'phases': ph, 'flows': [row(k) for _ in ph]}
+    if rng.random() < 0.2:
+        owner['flows'][rng.randrange(len(ph))] = [0.] * len(PKGS[k])          # an empty phase
+    if rng.random() < 0.4:
+        owner['from_streams'] = True
+    streams = [owner]
+    for _ in range(rng.choice([1, 2])):
+        kk = rng.choice([k, k, 1])
+        streams.append({'pkg': kk, 'multi': False, 'phases': [rng.choice(ph + ['l', 'g'])], 'flows': [row(kk, 0.5)]})
+    if rng.random() < 0.4:
+        ph2 = sorted(rng.sample(ph, 2))
+        streams.append({'pkg': k, 'multi': True, 'phases': ph2, 'flows': [row(k, 0.5) for _ in ph2]})
+    ns = len(streams)
+    handles = [['view', 0, p] for p in rng.sample(ph, rng.choice([1, 2, len(ph)]))]
+    if streams[-1]['multi'] and rng.random() < 0.5:
+        handles.append(['view', ns - 1, rng.choice(streams[-1]['phases'])])
+    nh = ns + len(handles)
+    own = [x for x in range(ns, nh) if handles[x - ns][1] == 0]
+    ops = []
+    for _ in range(rng.choice([1, 2, 2, 3])):
+        u = rng.random()
+        if u < 0.45:
+            ops.append(['sep', 0, rng.choice(own)])                 # the mixture minus one of its own phases
+        elif u < 0.6:
+            ops.append(['sep', rng.choice(own), 0])                 # a phase minus the whole mixture
+        elif u < 0.7:
+            a = rng.choice(own)
+            ops.append(['sep', a, rng.choice(own) if rng.random() < 0.7 else a])
+        elif u < 0.8:
+            ops.append(['sep', rng.choice([0] + own), rng.randrange(1, nh)])
+        elif u < 0.9:
+            ops.append(['scale', rng.choice([0] + own), float(rng.choice(KS[2:7]))])
+        else:
+            ops.append(['mix', 0, [rng.randrange(1, ns) for _ in range(rng.choice([1, 2]))] + ([0] if rng.random() < 0.5 else []), False, 0])
+    return {'streams': streams, 'handles': handles, 'ops': ops}
+
 def gen_case(rng):
     case = gen_case_family(rng)
     if rng.random() < 0.5:
@@ -483,6 +529,8 @@ def gen_case_family(rng):
         return gen_case_pair_case(rng)
     if 0.40 <= u < 0.46:
         return gen_view_recv_case(rng)
+    if 0.46 <= u < 0.53:
+        return gen_sep_own_case(rng)
     if u < 0.15:
         return gen_cache_case(rng)
     if u < 0.27:
@@ -505,6 +553,13 @@ def gen_cases(rng, tier):
 def build(sd, T=320.):
     e = env(); tmo = e['tmo']
     P = e['P'][sd['pkg']]
+    if sd['multi'] and sd.get('from_streams'):
+        # a MultiStream assembled from single-phase streams: its rows are those streams' flow data and multistream[p]
+        # hands the very same stream objects back
+        parts = [build({'pkg': sd['pkg'], 'multi': False, 'phases': [p], 'flows': [row]}, T) for p, row in zip(sd['phases'], sd['flows'])]
+        s = tmo.MultiStream.from_streams(parts)
+        assert list(s.phases) == list(sd['phases']) and all(s[p] is x for p, x in zip(sd['phases'], parts))
+        return s
     if sd['multi']:
         s = tmo.MultiStream(None, phases=tuple(sd['phases']), T=T, thermo=P)
         assert list(s.phases) == list(sd['phases'])
@@ -881,6 +936,7 @@ def oracle(case):
         ok_flows = all(nonneg(s) for s in store)
         kinds = [kind_of(s) for s in store]
         phs0 = [phases_info(s) for s in store]
+        rows0 = [phase_totals(s).copy() for s in store]
         desc = None
         try:
             apply_op(store, op)
@@ -939,6 +995,15 @@ def oracle(case):
                     return f'separate_out:recv={kinds[r]}:other={kinds[o]}: totals {totals(store[r])} != receiver - other {exp}'
                 if not shared0[r][o] and not same_tot(totals(store[o]), tot0[o]):
                     return 'separate_out: the separated stream was modified'
+                # "restores the remainder": only the phase the separated single-phase stream lands in changes - also when
+                # that stream is one of the mixture's own phases (it shares part of the mixture's flow data)
+                if kinds[r] == 'M' and kinds[o] == 'S' and kind_of(store[r]) == 'M' and list(store[r].phases) == phs0[r][0]:
+                    po = phs0[o][0][0]
+                    hit = po if po in phs0[r][0] else po.swapcase()
+                    for pq, a, b in zip(phs0[r][0], rows0[r], phase_totals(store[r])):
+                        if pq != hit and not np.allclose(a, b, rtol=1e-9, atol=0):
+                            return (f'separate_out:recv=M:other=S:shared={int(shared0[r][o])}: phase {pq!r} of the receiver held {a.tolist()}, '
+                                    f'now {b.tolist()}, although the separated stream is in phase {po!r}')
         elif name == 'copy_flow':
             d, s, ids, remove, exclude = op[1:6]
             if raised: return None
@@ -1102,6 +1167,12 @@ CORPUS = [
     # fixed in a4a2555: an energy-balanced mix whose only non-empty inlet is one of the receiver's own sub-streams
     {'streams': [_m(1, ['g', 'l'], [[1., 0, 0], [0, 2., 4.]]), _s(1, 'g', [0, 0, 0])], 'handles': [['view', 0, 'l']],
      'ops': [['mix', 0, [2, 1], True, 0], ['mix', 0, [2], True, 0]]},
+    # seeded C01-14: a MultiStream minus one of its own phases (the sub-stream shares one row of its flow data), the other
+    # phase holds material; also assembled by from_streams, and a phase minus the whole mixture
+    {'streams': [_m(1, ['g', 'l'], [[1., 0, 0.5], [0, 2., 4.]]), _s(1, 'g', [0, 1., 0])], 'handles': [['view', 0, 'l'], ['view', 0, 'g']],
+     'ops': [['sep', 0, 2], ['sep', 0, 1], ['sep', 3, 0]]},
+    {'streams': [dict(_m(0, ['L', 'g', 's'], [[1., 0, 0, 0, 0, 2.], [0, 2., 4., 0, 0, 0], [0, 0, 0, 8., 0, 0]]), from_streams=True)],
+     'handles': [['view', 0, 'g'], ['view', 0, 's']], 'ops': [['sep', 0, 1], ['sep', 2, 0]]},
     # mix then separate (same and other package, self inlet)
     {'streams': [_s(0, 'l', [1., 2., 0, 0, 0, 0]), _s(1, 'g', [4., 0.5, 0]), _m(2, ['g', 'l'], [[0, 0, 0, 0, 1., 0], [0, 0, 0, 8., 0, 3.]])],
      'ops': [['mix', 0, [0, 1, 2, 0], False, 0], ['sep', 0, 2]]},
